@@ -131,6 +131,7 @@ func c16Alphabet(path []c16Op, b c16Bounds) []c16Op {
 		{`"b":8`, "replace"},
 		{`"a":"y","b":8`, "cond:a"},
 		{`"a":"x","a_user":"zed"`, ""},
+		{`"b":7.0`, ""}, // an integral number in float notation: the request parse keeps a float, the store returns an integer
 	}
 	if b.Thorough {
 		bodies = append(bodies,
